@@ -19,7 +19,7 @@ RULE = (
     "label->index map; non-trivial = the labelled output defines >= 1 label that is referenced; distinct = sha1(source, options)"
 )
 ASSUMPTIONS = [
-    "comment options are off in the pairs (a label line's comment has no counterpart once the line is removed)",
+    "comments are not part of the relation: it is computed on the tokenised instructions (a label line's comment has no counterpart once the line is removed); the comment options and append_version are on in about a quarter of the pairs and always in the 'longlines' stream",
     "that each jump reaches the construct it was generated for is decided by C01's trace comparison on the same generators; here the two label modes are related to each other",
 ]
 TRUSTED = ["vf/tok.py", "vf/ic10_isa.py loader", "vf/ic10_vm.py for the lock-step runs"]
@@ -33,6 +33,7 @@ def plan(tier, seed):
     for k in POOL_KINDS:
         tasks += pool.batches(f"names:{k}", 260 if q else 4000, 10)
     tasks += pool.batches("strings", 150 if q else 2000, 10) + pool.batches("corpus", len(workload.corpus()), 2)
+    tasks += pool.batches("longlines", 120 if q else 2000, 10) + pool.batches("modules", 200 if q else 3000, 10)
     for hz in ("ifexp_else_load",):
         tasks += pool.batches(f"defect:{hz}", 30 if q else 300, 10)
     return dict(tasks=tasks, nworkers=14, time_cap=85 if q else 880)
@@ -60,8 +61,31 @@ def gen_case(task, i):
     elif st == "corpus":
         src = workload.corpus_case(i)["src"]
         base["inline_functions"] = bool(i & 1)
+    elif st == "longlines":
+        # every emitted line is long (source comments, one instruction per statement): the version tag finds no
+        # line to sit on - whatever the compiler does then must leave the numeric targets right
+        from .. import gen_shapes
+
+        src = gen_shapes.longline_program(r)
+        base.update(append_version=True, original_code_as_comment=True, compact=False, generated_comments=r.random() < 0.3)
+    elif st == "modules":
+        # library modules whose functions return early, and (often) a main-script function carrying the bare name
+        # of a library function: '<module>.<f>end' and '<f>end' are different labels
+        from . import c13
+
+        cc = c13.gen_case(dict(stream="split"), i)
+        src, _ = c13.render(cc)
+        if r.random() < 0.6:
+            f = r.choice(r.choice(cc["mods"])["funcs"])[0]
+            ls = src[""].split("\n")
+            k = max(j for j, l in enumerate(ls) if l.startswith("from library import")) + 1
+            ls[k:k] = [f"def {f}(q):", "    if q > 3:", "        return 1", "    d5.Setting = q", "    return 2"]
+            src[""] = "\n".join(ls) + f"    d4.Setting = {f}(d3.Setting)\n"
     else:
         src = workload.gen_program(ID, st, i)[0]["src"]
+    if st not in ("longlines",) and r.random() < 0.25:
+        # the relation is on instructions (the tokeniser drops comments), so the comment options may be on
+        base.update(append_version=r.random() < 0.7, original_code_as_comment=r.random() < 0.5, generated_comments=r.random() < 0.5)
     return dict(src=src, options=base, env_seeds=[f"{i}:0", f"{i}:1"], stream=st)
 
 
@@ -90,7 +114,7 @@ def relation(labelled, free):
 def check_case(case):
     src = case["src"]
     o = dict(case["options"])
-    cnt = dict(pairs=0, successes=0, errors=0, asymmetric=0, labels_defined=0, labels_substituted=0, tokens_compared=0, lockstep_runs=0, lockstep_steps=0, unmodelled=0, loader_events=0)
+    cnt = dict(pairs=0, successes=0, errors=0, asymmetric=0, labels_defined=0, labels_substituted=0, tokens_compared=0, lockstep_runs=0, lockstep_steps=0, unmodelled=0, loader_events=0, pairs_with_comments_or_tag=0, version_tag_found_no_line=0)
     vio = []
     feats = [case.get("stream", "?")]
     a = H.compile_src(src, dict(o, remove_labels=False))
@@ -105,6 +129,10 @@ def check_case(case):
         return dict(verdict="skip", counters=cnt, violations=[], features=feats)
     cnt["successes"] = 1
     ca, cb = a["code"], b["code"]
+    if o.get("append_version") or o.get("original_code_as_comment") or o.get("generated_comments"):
+        cnt["pairs_with_comments_or_tag"] = 1
+    if o.get("append_version") and "Generated by" not in cb:
+        cnt["version_tag_found_no_line"] = 1
     problems = []
     pa, eva = ic10_isa.load(ca)
     pb, evb = ic10_isa.load(cb)
